@@ -1,7 +1,17 @@
 """Strict baton scheduler: real threads, but exactly one runs at a time and control changes hands only at the
 yield points (the start of every program instruction = one step of the abstract machine), in the order given by a
-TLC-generated schedule.  A stuck schedule is a machinery failure (never a verdict)."""
+TLC-generated schedule.  A stuck schedule is a machinery failure (never a verdict).
+
+MICRO MODE (case["micro"] > 0): at a scheduled switch A -> B, thread A does not stop at the step boundary: it runs on *into* its next
+machine step for a pseudo-random number of line events of autograd's own code (sys.settrace), is frozen there - in the middle of
+tracer.trace / primitive.f_wrapped / backward_pass / a rule - while the other threads take their scheduled steps, and completes the
+step when its next slot comes.  The slot of a step is where the step ENDS, so the order of step ends is still the exported schedule
+(a step that completes before its budget is used up ran out of turn; the order of step ends actually observed is what is recorded and
+handed to the trace spec).  In the specification a frozen step is a stuttering step: the machine's state changes are per thread."""
+import os
+import sys
 import threading
+import zlib
 
 
 class SchedulerStuck(Exception):
@@ -19,6 +29,12 @@ class Baton:
         self.timeout = timeout
         self.started = False
         self.trace = []
+        self.micro_seed = 0
+        self.mid = {}          # thread -> remaining line events before it freezes inside its current step
+        self.instep = set()
+        self.ends = []         # order in which machine steps ended (= the schedule as executed)
+        self.frozen_mid_step = 0
+        self.ran_out_of_turn = 0
 
     def _advance(self):
         # called with cv held, when nobody runs: hand the baton to the next scheduled thread that can take it
@@ -44,19 +60,52 @@ class Baton:
             self.started = True
             self._advance()
 
+    def _wait_turn(self, me, label):
+        # called with cv held
+        if self.running == me:
+            self.running = None
+        self.waiting.add(me)
+        self._advance()
+        while self.running != me:
+            if not self.cv.wait(self.timeout):
+                raise SchedulerStuck("thread %s stuck at %s (pos %d of %s)" % (me, label, self.pos, self.schedule))
+        self.waiting.discard(me)
+
     def point(self, me, label=None):
         with self.cv:
-            if self.running == me:
-                self.running = None
-            self.waiting.add(me)
-            self._advance()
-            while self.running != me:
-                if not self.cv.wait(self.timeout):
-                    raise SchedulerStuck("thread %s stuck at %s (pos %d of %s)" % (me, label, self.pos, self.schedule))
-            self.waiting.discard(me)
+            if me in self.instep:
+                self.ends.append(me)
+                self.instep.discard(me)
+            if self.mid.get(me):
+                self.mid[me] = 0           # the step completed before the budget was used up: it ran out of turn
+                self.ran_out_of_turn += 1
+            if (self.micro_seed and self.running == me and self.pos < len(self.schedule) and self.schedule[self.pos] != me
+                    and me in self.schedule[self.pos:]):
+                m = zlib.crc32(("%d/%d/%s" % (self.micro_seed, self.pos, me)).encode()) % 90
+                if m > 0:
+                    self.mid[me] = m       # keep the baton, run into the next step, freeze after m line events
+                    self.instep.add(me)
+                    return
+            self._wait_turn(me, label)
+            self.instep.add(me)
+
+    def micro(self, me):
+        """one line event of autograd's own code in thread `me`"""
+        if not self.mid.get(me):
+            return
+        with self.cv:
+            self.mid[me] -= 1
+            if self.mid[me] > 0:
+                return
+            self.frozen_mid_step += 1
+            self._wait_turn(me, "mid-step")
 
     def finish(self, me):
         with self.cv:
+            if me in self.instep:
+                self.ends.append(me)
+                self.instep.discard(me)
+            self.mid[me] = 0
             self.done.add(me)
             self.waiting.discard(me)
             if self.running == me:
@@ -68,18 +117,37 @@ def run_threads(case, Ctx, run_thread):
     prog = case["prog"]
     n = len(prog["threads"])
     baton = Baton(case.get("schedule") or [])
+    baton.micro_seed = int(case.get("micro") or 0)
+    import autograd
+    prefix = os.path.dirname(os.path.abspath(autograd.__file__)) + os.sep
     obs = [None] * n
     ids = [None] * n
     errs = []
 
+    def tracer_for(me):
+        def local(frame, event, arg):
+            if event == "line":
+                baton.micro(me)
+            return local
+
+        def glob(frame, event, arg):
+            if frame.f_code.co_filename.startswith(prefix):
+                baton.micro(me)
+                return local
+            return None
+        return glob
+
     def body(i):
         ctx = Ctx(prog, case.get("variant", 0), sched=baton, name=i + 1)
         try:
+            if baton.micro_seed:
+                sys.settrace(tracer_for(i + 1))
             obs[i] = run_thread(ctx, prog["threads"][i])
         except SchedulerStuck as ex:
             errs.append(str(ex))
             obs[i] = {"k": "error", "type": "SchedulerStuck", "msg": str(ex)}
         finally:
+            sys.settrace(None)
             ids[i] = [x if x is not None else -99 for x in ctx.ids]
             baton.finish(i + 1)
     ts = [threading.Thread(target=body, args=(i,), daemon=True) for i in range(n)]
@@ -92,4 +160,4 @@ def run_threads(case, Ctx, run_thread):
             raise SchedulerStuck("thread did not finish")
     if errs:
         raise SchedulerStuck("; ".join(errs))
-    return obs, ids
+    return obs, ids, baton
